@@ -29,11 +29,15 @@ class _SuppressAsTry(ast.NodeTransformer):
             return node
         ce = node.items[0].context_expr
         if not (isinstance(ce, ast.Call) and not ce.keywords and ce.args and
-                ast.unparse(ce.func) in ('contextlib.suppress', 'suppress')
-                and not any(isinstance(a, ast.Starred) for a in ce.args)):
+                ast.unparse(ce.func) in ('contextlib.suppress', 'suppress')):
             return node
-        typ = ce.args[0] if len(ce.args) == 1 else ast.Tuple(
-            elts=list(ce.args), ctx=ast.Load())
+        if len(ce.args) == 1 and isinstance(ce.args[0], ast.Starred):
+            typ = ce.args[0].value          # suppress(*CLASSES)
+        elif any(isinstance(a, ast.Starred) for a in ce.args):
+            return node
+        else:
+            typ = ce.args[0] if len(ce.args) == 1 else ast.Tuple(
+                elts=list(ce.args), ctx=ast.Load())
         h = ast.ExceptHandler(type=typ, name=None, body=[ast.Pass()])
         t = ast.Try(body=node.body, handlers=[h], orelse=[], finalbody=[])
         ast.copy_location(t, node)
@@ -667,6 +671,15 @@ class Program:
                 if c and fn.attr in c.methods:
                     return c.methods[fn.attr]
             return None
+        if isinstance(fn, ast.Name) and fn.id not in finfo.params:
+            # a local bound once to a bound method / function of the package
+            # (`walk = self._walk`): the call goes to that function
+            al = self._local_fn_aliases(finfo).get(fn.id)
+            if al is not None:
+                g = self.callee_of(finfo, ast.Call(func=al, args=call.args,
+                                                   keywords=call.keywords))
+                if g is not None:
+                    return g
         r = self.resolve(m, fn)
         if (r is None or (r not in self.functions and r not in self.classes
                           and not str(r).startswith('ext:'))) \
@@ -686,6 +699,35 @@ class Program:
         if r in self.classes:
             return self.find_method(r, '__init__')
         return None
+
+    def _local_fn_aliases(self, finfo):
+        cache = self.__dict__.setdefault('_fn_aliases', {})
+        if finfo.qual in cache:
+            return cache[finfo.qual]
+        bound = {}
+        for n in ast.walk(finfo.node):
+            tg = []
+            if isinstance(n, ast.Assign):
+                tg = n.targets
+            elif isinstance(n, (ast.AugAssign, ast.AnnAssign, ast.For,
+                                ast.comprehension, ast.NamedExpr)):
+                tg = [n.target]
+            elif isinstance(n, ast.With):
+                tg = [i.optional_vars for i in n.items if i.optional_vars]
+            for t in tg:
+                for x in ast.walk(t):
+                    if isinstance(x, ast.Name) and isinstance(
+                            x.ctx, ast.Store):
+                        v = n.value if isinstance(n, ast.Assign) and len(
+                            n.targets) == 1 and n.targets[0] is x else None
+                        bound.setdefault(x.id, []).append(v)
+        out = {}
+        for nm, vals in bound.items():
+            if len(vals) == 1 and isinstance(vals[0], (ast.Attribute,
+                                                       ast.Name)):
+                out[nm] = vals[0]
+        cache[finfo.qual] = out
+        return out
 
     def callees(self, finfo):
         if finfo.qual in self._callees:
